@@ -780,6 +780,9 @@ where
             }
         }
 
+        // Discard any partially received frame: it belongs to the closed transport
+        self.packet_builder.reset();
+
         // Cancel all timers
         self.cancel_timers(&mut events);
 
